@@ -460,7 +460,7 @@ vharness! {
     //@ props: C01 C09
     //@ tier: quick
     //@ functions: v3::Codec::encodev (Publish arm), encode::encode_publish, utils::write_variable_length
-    //@ bounds: declared payload sizes for which 2+topic+id+payload_size exceeds 268435455 (the complement of rt3_publish_rl)
+    //@ bounds: declared payload sizes for which 2+topic+id+payload_size exceeds 268435455 (the complement of rt3_publish_rl); configured outbound limit absent or any u32
     //@ unwindset: utf8_is_valid=3
     //@ desc: a v3 PUBLISH whose Remaining Length would exceed the MQTT maximum (incl. sizes that overflow u32) is refused with an error and nothing is appended (regression harness of the defect fixed in /repo, see known_findings.txt)
     fn rt3_publish_rl_over() unwind(6) {
@@ -470,6 +470,10 @@ vharness! {
         let hdr = 2 + p.topic.len() as u64 + if p.packet_id.is_some() { 2 } else { 0 };
         vk::assume(hdr + p.payload_size as u64 > 268_435_455);
         let codec = Codec::new();
+        // whatever outbound limit is configured - also one above the protocol maximum
+        if vk::any_bool() {
+            codec.set_max_size(vk::any_u32());
+        }
         let mut pages = BytePages::default();
         let r = codec.encodev(Encoded::Publish(p.clone(), None), &mut pages);
         assert!(r.is_err());
